@@ -245,10 +245,14 @@ def check_rescale(scale, res):
                     if frange is not None:
                         kw["frange"] = frange
                     try:
+                        Pin, Fin = P.copy(), F.copy()
+                        fin = None if out[0] == "n_oct" else out[2].copy()
                         if out[0] == "n_oct":
-                            Pout, Fctr, msv, ms = psd.rescale(P, F, n_oct=out[1], **kw)
+                            Pout, Fctr, msv, ms = psd.rescale(Pin, Fin, n_oct=out[1], **kw)
                         else:
-                            Pout, Fctr, msv, ms = psd.rescale(P, F, freq=out[2], **kw)
+                            Pout, Fctr, msv, ms = psd.rescale(Pin, Fin, freq=fin, **kw)
+                        if not (np.array_equal(Pin, P) and np.array_equal(Fin, F) and (fin is None or np.array_equal(fin, out[2]))):
+                            msgs.append((case, "rescale modified its input arrays"))
                     except ValueError as e:
                         # documented trimming can leave nothing
                         if "zero-size" in str(e) or "attempt to get" in str(e):
@@ -401,7 +405,10 @@ def check_resample(p, q, res):
             nout = -(-n * p // q)
             k = np.arange(n)
             x = np.sin(0.37 * k) + 0.01 * k * k
-            r, fir = dsp.resample(x, p, q, pts=pts, getfir=True)
+            xin = x.copy()
+            r, fir = dsp.resample(xin, p, q, pts=pts, getfir=True)
+            if not np.array_equal(xin, x):
+                msgs.append((case, "resample modified its input"))
             res.ev("resample/%s/n%d" % ("up" if qr == 1 and pr > 1 else "same" if pr == qr else "down" if pr == 1 else "mixed", n))
             if r.shape != (nout,):
                 msgs.append((case, "resample returns %d samples, ceil(n*p/q) = %d" % (r.shape[0], nout)))
@@ -548,12 +555,15 @@ def _fixtime_one(dsp, nb, t, y, var, exact, res):
     if var.get("keepdrops"):
         kw["deldrops"] = False
     info = None
+    tsnap, ysnap = t.copy(), y.copy()
     try:
         with warnings.catch_warnings():
             warnings.simplefilter("ignore")
             out = dsp.fixtime(arg, **kw)
             if var.get("getall"):
                 out, info = out
+        if not (np.array_equal(t, tsnap) and np.array_equal(y, ysnap, equal_nan=True)):
+            return "fixtime modified its input arrays"
     except Exception as e:  # noqa
         if isinstance(e, ValueError) and "no positive steps" in str(e) and not (steps > 0).any():
             res.exit("fixtime: no positive time step (documented refusal)")
